@@ -64,76 +64,26 @@ def check_fast_paths(run, F):
 
 
 def _skeleton(fn, body, lead):
+    """The fast path as a decision table: with an out buffer the kernel form writes into it and
+    nothing is returned; without one a buffer of self.len() uninitialised slots is allocated,
+    handed to the same kernel form, and returned through assume_init."""
+    import dtree
+    import nullrules as N
     name_to = fn.name + '_to'
-    if body.get('k') != 'Block':
-        return False, 'body is not a block'
-    stmts = body.get('stmts', [])
-    len_locals = set()
-    for s in stmts:
-        if s['k'] == 'Let' and 'init' in s and s['pat'].get('k') == 'Binding' and \
-                src(peel(s['init'])) == 'self.len()':
-            len_locals.add(s['pat']['local'])
-        elif s['k'] == 'Item':
-            continue
-        else:
-            return False, 'unexpected statement before the dispatch: %s' % src(s.get('init') or s.get('e') or {})[:60]
-    iff = peel(body.get('expr', {}))
-    if iff.get('k') != 'If' or len(iff['ch']) != 3 or peel(iff['ch'][0]).get('k') != 'LetExpr':
-        return False, 'expected `if let Some(out) = out { … } else { … }`'
-    le = peel(iff['ch'][0])
-    if not (is_local(peel(le['ch'][0]), 'out') and
-            strip_generics(le['pat'].get('def', '')).endswith('Some')):
-        return False, 'dispatch is not on the `out` argument'
-    then, els = peel(iff['ch'][1]), peel(iff['ch'][2])
-
-    def to_call(e):
-        e = peel(e)
-        if e.get('k') == 'MethodCall' and e['method'] == name_to and \
-                callee_is(e, 'Vec1View::' + name_to) and is_local(peel(e['ch'][0]), 'self'):
-            return e
-        return None
-
-    # then arm: `self.X_to(lead…, out); None`
-    ts = [s for s in then.get('stmts', []) if s['k'] != 'Item']
-    if len(ts) != 1 or to_call(ts[0].get('e', {})) is None:
-        return False, 'out-buffer arm is not a single `self.%s(…)` call' % name_to
-    c1 = to_call(ts[0]['e'])
-    a1 = [src(peel(x)) for x in c1['ch'][1:]]
-    if a1 != lead + ['out']:
-        return False, 'out-buffer arm passes (%s), expected (%s)' % (', '.join(a1),
-                                                                     ', '.join(lead + ['out']))
-    if not src(peel(then.get('expr', {}))).endswith('None'):
-        return False, 'out-buffer arm does not return None'
-    # else arm
-    es = [s for s in els.get('stmts', []) if s['k'] != 'Item']
-    if len(es) != 2 or es[0]['k'] != 'Let':
-        return False, 'allocating arm is not `let mut out = uninit(len); self.%s(…); Some(assume_init)`' % name_to
-    alloc = peel(es[0]['init'])
-    if not (alloc.get('k') == 'Call' and callee_is(alloc, 'Vec1::uninit')):
+    t = N.tbl(fn)
+    args = ', '.join(lead)
+    want = N.T((['VALID(out)'], 'NULL', ['self.%s(%s, out)' % (name_to, args)]),
+               (['!VALID(out)'], 'Some(buf.assume_init())',
+                ['buf := Vec1::uninit(self.len())',
+                 'self.%s(%s, Vec1::uninit_ref_mut(buf))' % (name_to, args)]))
+    if not (t == want):
+        return False, 'decision table %s' % dtree.show(t)
+    # the calls are the trait's own kernel form on self and the output type's allocator
+    calls = [x for x in walk(fn.hir) if x.get('k') == 'MethodCall' and x['method'] == name_to]
+    if len(calls) != 2 or not all(callee_is(x, 'Vec1View::' + name_to) and is_local(peel(x['ch'][0]), 'self')
+                                  for x in calls):
+        return False, 'kernel form is not `Vec1View::%s` on self in both arms' % name_to
+    allocs = [x for x in walk(fn.hir) if x.get('k') == 'Call' and callee_is(x, 'Vec1::uninit')]
+    if len(allocs) != 1:
         return False, 'buffer is not allocated with `O::uninit`'
-    arg = peel(alloc['ch'][1])
-    if not ((arg.get('res') == 'local' and arg.get('local') in len_locals) or
-            src(arg) == 'self.len()'):
-        return False, 'buffer length is `%s`, not `self.len()`' % src(arg)
-    buf = es[0]['pat'].get('local')
-    c2 = to_call(es[1].get('e', {}))
-    if c2 is None:
-        return False, 'allocating arm does not call `self.%s`' % name_to
-    a2 = [peel(x) for x in c2['ch'][1:]]
-    if [src(x) for x in a2[:-1]] != lead:
-        return False, 'allocating arm passes (%s), expected (%s, …)' % (
-            ', '.join(src(x) for x in a2[:-1]), ', '.join(lead))
-    last = a2[-1]
-    if not (last.get('k') == 'Call' and callee_is(last, 'Vec1::uninit_ref_mut') and
-            peel(last['ch'][1]).get('local') == buf):
-        return False, 'kernel form does not receive a view of the freshly allocated buffer'
-    fin = peel(els.get('expr', {}))
-    if not (fin.get('k') == 'Call' and strip_generics(fin.get('callee', '')).endswith('Some')):
-        return False, 'allocating arm does not return Some(…)'
-    inner = peel(fin['ch'][1])
-    while inner.get('k') == 'Block' and 'expr' in inner and not inner.get('stmts'):
-        inner = peel(inner['expr'])
-    if not (inner.get('k') == 'MethodCall' and inner['method'] == 'assume_init' and
-            peel(inner['ch'][0]).get('local') == buf):
-        return False, 'result is not `assume_init()` of the allocated buffer'
-    return True, 'uninit(self.len()) -> %s(%s, buffer) -> assume_init' % (name_to, ', '.join(lead))
+    return True, 'uninit(self.len()) -> %s(%s, buffer) -> assume_init' % (name_to, args)
